@@ -328,6 +328,24 @@ Section LoadParentOrder.
       + destruct l1' as [|y l1']; cbn in Eb; [injection Eb as <- <-; left; destruct h; reflexivity|].
         injection Eb as _ Eb. destruct l1'; discriminate.
   Qed.
+  (* the shape of the list: the nested histories (each with a parent) followed by the history of the folder itself *)
+  Theorem load_shape t hs : load C cdig t = inl hs ->
+    exists below rooth, hs = below ++ [rooth] /\ lh_parent rooth = None /\ lh_root rooth = [] /\
+                        forall h, In h below -> lh_parent h <> None.
+  Proof.
+    destruct t as [c|h kids]; intros Hl.
+    - cbn in Hl. injection Hl as <-. exists [], (lhist_of C [] None None). repeat split; intros h0 [].
+    - rewrite load_dir in Hl. destruct (match h with Some hh => check_chain C cdig hh | None => None end); [discriminate|].
+      destruct (combine_results (sort name_leb (kid_results C cdig [] [] kids))) as [below|e] eqn:Ec; [|discriminate].
+      injection Hl as <-. exists below, (lhist_of C [] None h). split; [reflexivity|]. split; [destruct h; reflexivity|]. split; [destruct h; reflexivity|].
+      assert (Hk : parent_later [] below).
+      { destruct (combine_results_concat _ _ Ec) as [ls [-> Hf]]. apply parent_later_concat.
+        apply Forall_forall. intros x Hx. destruct (Forall2_In_l _ _ _ Hf x Hx) as [r [Hr Hrx]].
+        apply sort_In in Hr. unfold kid_results in Hr. apply in_map_iff in Hr. destruct Hr as [nk [<- Hin]]. cbn [snd] in Hrx.
+        eapply discover_parent_later. exact Hrx. }
+      intros h0 Hin. apply in_split in Hin. destruct Hin as [l1 [l2 E]].
+      destruct (Hk l1 h0 l2 E) as [H|[h' [_ H]]]; rewrite H; discriminate.
+  Qed.
 End LoadParentOrder.
 
 (* ---- every loaded history sits at an existing folder of the tree ---- *)
